@@ -67,6 +67,33 @@ func runC16(c *fw.Ctx) {
 			}
 		}
 	}
+	// layers whose [batch, outputs] shapes collide under ad-hoc cache keys ([1,11] / [11,1], [12,3] / [1,23], ...), run one
+	// after the other in one case, in both orders
+	for gi, group := range CollidingShapes {
+		if len(group[0]) != 2 {
+			continue
+		}
+		for rep := 0; rep < c.Pick(4, 40); rep++ {
+			gi, group, rep := gi, group, rep
+			c.Case(func(k *fw.K) {
+				k.Count("colliding_shape_group_cases", 1)
+				for q := range group {
+					shape := group[q]
+					if rep%2 == 1 {
+						shape = group[len(group)-1-q]
+					}
+					if len(shape) != 2 {
+						continue
+					}
+					c16History(k, shape[0], 1+k.Rng.Intn(3), shape[1])
+					if k.Failed() {
+						return
+					}
+				}
+				k.Key("colliding/%d/%d", gi, rep%2)
+			})
+		}
+	}
 	for i := 0; i < c.Pick(500, 20000); i++ {
 		c.Case(func(k *fw.K) { c16Defaults(k) })
 	}
@@ -91,6 +118,93 @@ func runC16(c *fw.Ctx) {
 	}
 	for i := 0; i < c.Pick(100, 2000); i++ {
 		c.Case(func(k *fw.K) { c16Overflow(k) })
+	}
+	for i := 0; i < c.Pick(800, 16000); i++ {
+		c.Case(func(k *fw.K) { c16Frozen(k) })
+	}
+}
+
+// c16Frozen: every tracked / frozen combination of W, B and the input. A frozen (untracked) parameter - pretrained values
+// installed through the Weights() pointer - takes part in Forward exactly like a trainable one, receives no gradient, and the
+// gradients of the tracked ones are the derivatives of the affine map: dx[b][d] = sum_o G[b][o] W[o] for every batch size (the
+// input is never expanded), dW[o] = sum_d x[0][d] G[0][o] and dB[o] = G[0][o] for a batch of one (no expansion there either).
+func c16Frozen(k *fw.K) {
+	r := k.Rng
+	B, D, O := 1+r.Intn(4), 1+r.Intn(4), 1+r.Intn(4)
+	if r.Intn(2) == 0 {
+		B = 1
+	}
+	mask := [3]bool{r.Intn(2) == 0, r.Intn(2) == 0, r.Intn(2) == 0} // W, B, x tracked?
+	w, b := Shuffled(r, Unique(r, []int{O}, 0.2, 2)), Shuffled(r, Unique(r, []int{O}, 0.2, 2))
+	x := Shuffled(r, Unique(r, []int{B, D}, 0.2, 2))
+	g := randG(k, []int{B, O})
+	k.Case = map[string]any{"batch": B, "features": D, "outputs": O, "tracked_W_B_x": mask, "W": w.Data, "B": b.Data, "x": x.Data, "G": g.Data}
+	k.Key("frozen/%d/%d/%d/%v", B, D, O, mask)
+	k.Count("tracked_frozen_combinations", 1)
+	fc, err := layers.NewFC(&layers.FCConfig{Inputs: D, Outputs: O})
+	if err != nil {
+		k.Failf("NewFC: %v", err)
+		return
+	}
+	ws := fc.Weights()
+	rw, rb, rx := rt.MustLeaf(w, mask[0]), rt.MustLeaf(b, mask[1]), rt.MustLeaf(x, mask[2])
+	*ws[0].Value, *ws[1].Value = rw, rb
+	var y tensor.Tensor
+	if p := call(func() {
+		if y, err = fc.Forward(rx); err == nil {
+			err = weightedBackprop(y, g)
+		}
+	}); p != nil || err != nil || y == nil {
+		k.Failf("FC(%d->%d) batch %d with tracked (W, B, x) = %v: Forward / BackPropagate failed: panic=%v err=%v", D, O, B, mask, p, err)
+		return
+	}
+	want, _ := ref.FC(x, w, b)
+	if e := rt.Compare(y, want, 1e-12, 1e-12, nil, 0); e != nil {
+		k.Failf("FC(%d->%d) batch %d with tracked (W, B, x) = %v: Forward: %v", D, O, B, mask, e)
+		return
+	}
+	for i, t := range []tensor.Tensor{rw, rb, rx} {
+		if !mask[i] && t.Gradient() != nil {
+			k.Failf("FC(%d->%d) batch %d with tracked (W, B, x) = %v: the untracked %s received a gradient", D, O, B, mask, []string{"W", "B", "input"}[i])
+			return
+		}
+		if mask[i] && t.Gradient() == nil {
+			k.Failf("FC(%d->%d) batch %d with tracked (W, B, x) = %v: the tracked %s received no gradient", D, O, B, mask, []string{"W", "B", "input"}[i])
+			return
+		}
+	}
+	if mask[2] {
+		dx := ref.Zeros([]int{B, D})
+		for bi := 0; bi < B; bi++ {
+			for d := 0; d < D; d++ {
+				for o := 0; o < O; o++ {
+					dx.Data[bi*D+d] += g.Data[bi*O+o] * w.Data[o]
+				}
+			}
+		}
+		if e := rt.Compare(rx.Gradient(), dx, 1e-12, 1e-10, nil, 0); e != nil {
+			k.Failf("FC(%d->%d) batch %d with tracked (W, B, x) = %v: gradient of the input is not sum_o G[b][o] W[o]: %v", D, O, B, mask, e)
+			return
+		}
+	}
+	if B == 1 {
+		if mask[0] {
+			dw := ref.Zeros([]int{O})
+			for o := 0; o < O; o++ {
+				for d := 0; d < D; d++ {
+					dw.Data[o] += x.Data[d] * g.Data[o]
+				}
+			}
+			if e := rt.Compare(rw.Gradient(), dw, 1e-12, 1e-10, nil, 0); e != nil {
+				k.Failf("FC(%d->%d) batch 1 with tracked (W, B, x) = %v: gradient of W is not G[o] sum_d x[d]: %v", D, O, mask, e)
+				return
+			}
+		}
+		if mask[1] {
+			if e := rt.Compare(rb.Gradient(), ref.New([]int{O}, g.Data), 1e-12, 1e-10, nil, 0); e != nil {
+				k.Failf("FC(%d->%d) batch 1 with tracked (W, B, x) = %v: gradient of B is not G: %v", D, O, mask, e)
+			}
+		}
 	}
 }
 
